@@ -3,6 +3,8 @@
 Shape: round-trip differential monitor: real pprint()/script_repr() text is evaluated and the rebuilt object's
 parameter values are compared structurally with the original's."""
 import ast
+import time
+import threading
 import math
 import sys
 import types
@@ -29,7 +31,7 @@ ASSUMPTIONS = [
     'containers hold literals only (the statement says: literals, containers of literals or nested Parameterized '
     'objects); Parameterized values sit directly in Parameter/ClassSelector parameters, nested to depth 2',
 ]
-REQUIRED = {'pprint_evals': 1000, 'script_repr_evals': 1000, 'values_related_to_default': 100}
+REQUIRED = {'pprint_evals': 1000, 'script_repr_evals': 1000, 'values_related_to_default': 100, 'concurrent_prints': 30}
 
 MODNAME = 'pvgen_c20'
 _st = {}
@@ -216,9 +218,67 @@ def equal(a, b, path='', diffs=None):
         diffs.append(f'{path}: {a!r} vs {b!r}')
 
 
+class SlowInt(int):
+    """An int whose repr gives other threads a chance to run (a yield point inside the printer)."""
+
+    def __repr__(self):
+        time.sleep(0.0003)
+        return int.__repr__(self)
+
+
+def concurrent_case(idx, rng, P, rep):
+    """Two threads print objects that share a nested object at the same time: each text must still rebuild an equal object."""
+    param = _st['param']
+    mod = _st['mod']
+    inner = make_inner(idx, rng, 0)
+    cname = f'Holder{idx}'
+    Holder = type(cname, (param.Parameterized,), {'__module__': MODNAME, 'child': param.ClassSelector(class_=param.Parameterized, default=None),
+                                                   'n': param.Integer(default=0)})
+    setattr(mod, cname, Holder)
+    shared = inner(x=SlowInt(rng.randint(2, 9)), s='shared')
+    same_parent = rng.random() < 0.4
+    parents = [Holder(child=shared, n=SlowInt(1)), Holder(child=shared, n=SlowInt(2))]
+    if same_parent:
+        parents[1] = parents[0]
+    evalns = {k: v for k, v in vars(mod).items() if not k.startswith('__')}
+    results = [[], []]
+
+    def work(i):
+        for _ in range(6):
+            results[i].append(parents[i].param.pprint() if rng_choice[i] else param.script_repr(parents[i]))
+    rng_choice = [rng.random() < 0.7, rng.random() < 0.7]
+    ths = [threading.Thread(target=work, args=(i,)) for i in range(2)]
+    for t in ths:
+        t.start()
+    for t in ths:
+        t.join(30)
+    rep.count('concurrent_prints', sum(len(r) for r in results))
+    for i in range(2):
+        for text in results[i]:
+            try:
+                if rng_choice[i]:
+                    new = eval(text, dict(evalns))
+                else:
+                    tree = ast.parse(text)
+                    g = {}
+                    exec(compile(ast.Module(body=tree.body[:-1], type_ignores=[]), '<script_repr>', 'exec'), g)
+                    new = eval(compile(ast.Expression(tree.body[-1].value), '<script_repr>', 'eval'), g)
+                diffs = []
+                equal(parents[i], new, cname, diffs)
+            except Exception as e:   # noqa: BLE001
+                diffs = [f'{type(e).__name__}: {e}']
+            if diffs:
+                rep.violation('C20/concurrent-printing/values-differ', f'two threads printing objects that share a nested object: {diffs[:2]} '
+                              f'text={text[:200]!r}', case=dict(same_parent=same_parent))
+                break
+    rep.case(('concurrent', same_parent, tuple(rng_choice)), nontrivial=True)
+
+
 def run_case(idx, rng, P, rep):
     param = _st['param']
     mod = _st['mod']
+    if rng.random() < 0.03:
+        return concurrent_case(idx, rng, P, rep)
     inners = [make_inner(idx, rng, k) for k in range(rng.randint(1, 2))]
     n = rng.randint(2, 6)
     specs = []
